@@ -320,6 +320,10 @@ def run_tlc(
     t0 = time.time()
     try:
         p = subprocess.run(cmd, cwd=cwd, env=e, capture_output=True, text=True, timeout=timeout)
+        if p.returncode not in (0, 10, 11, 12, 13):
+            # a JVM that dies for reasons outside the model (resource pressure while many checks run): try once more
+            time.sleep(2)
+            p = subprocess.run(cmd, cwd=cwd, env=e, capture_output=True, text=True, timeout=timeout)
     except subprocess.TimeoutExpired as ex:
         shutil.rmtree(meta, ignore_errors=True)
         raise MachineryError(f"TLC timed out after {timeout}s on {module}/{cfg}") from ex
